@@ -41,6 +41,7 @@ pub fn run_line(line: &str, scratch: &str) -> String {
         "build" => by_width!(c, op_build, scratch),
         "hist" => by_width!(c, op_hist, scratch),
         "skf" => by_width!(c, op_skf, scratch),
+        "reads" => by_width!(c, op_reads, scratch),
         "skfaults" => by_width!(c, op_skfaults, scratch),
         "build2" => by_width!(c, op_build2, scratch),
         "map" => by_width!(c, op_map, scratch),
@@ -615,4 +616,35 @@ fn crc_simple(v: &[u8]) -> u64 {
         h = h.wrapping_mul(1099511628211);
     }
     h
+}
+
+
+// ------------------------------------------------------------------ C12: paired FASTQ input
+
+fn write_fastq(path: &str, reads: &[&str]) {
+    let mut s = String::new();
+    for (i, r) in reads.iter().enumerate() {
+        let (sq, q) = r.split_once(':').expect("read needs SEQ:QUAL");
+        let qual: String = q.bytes().map(|b| (b - b'A' + 33) as char).collect();
+        s.push_str(&format!("@r{}\n{}\n+\n{}\n", i, sq, qual));
+    }
+    std::fs::write(path, s).unwrap();
+}
+
+fn op_reads<IntT: for<'a> UInt<'a>>(c: &Case, scratch: &str) -> String {
+    let dir = format!("{scratch}/reads");
+    std::fs::create_dir_all(&dir).unwrap();
+    let (p1, p2) = (format!("{dir}/r1.fastq"), format!("{dir}/r2.fastq"));
+    write_fastq(&p1, &c.list("r1"));
+    write_fastq(&p2, &c.list("r2"));
+    let qual = QualOpts {
+        min_count: c.usize("mc") as u16,
+        min_qual: c.usize("mq") as u8,
+        qual_filter: qual_filter(c),
+    };
+    let d = SkaDict::<IntT>::new(c.usize("k"), 0, (&p1, Some(&p2)), "s", c.flag("rc"), &qual, None);
+    let mut v: Vec<(IntT, u8)> = d.kmers().iter().map(|(a, b)| (*a, *b)).collect();
+    v.sort();
+    let items: Vec<String> = v.iter().map(|(a, b)| format!("{}:{}", a, *b as char)).collect();
+    join(&items)
 }
